@@ -272,6 +272,19 @@ pub(crate) enum QuotedSpanEnd {
     Unterminated,
 }
 
+// Verification hooks: the position tables live in private modules and are
+// otherwise reachable only through a `YamlIndex` built by the full parser.
+#[cfg(feature = "verif-hooks")]
+#[doc(hidden)]
+pub use advance_positions::{
+    AdvancePositions as VerifAdvancePositions, OpenPositions as VerifOpenPositions,
+};
+#[cfg(feature = "verif-hooks")]
+#[doc(hidden)]
+pub use end_positions::{
+    CompactEndPositions as VerifCompactEndPositions, EndPositions as VerifEndPositions,
+};
+
 pub use error::YamlError;
 pub use index::YamlIndex;
 pub use light::{
